@@ -679,6 +679,8 @@ impl Actor for NodeServer {
                     writer,
                 });
 
+                #[cfg(ractor_verif)]
+                crate::verif::dialling(peer_label.as_deref());
                 let node_id = state.node_id_counter;
                 // Prefer label if present for diagnostics, else fall back to placeholder address
                 let peer_addr = peer_label.unwrap_or_else(|| "external".to_string());
@@ -710,6 +712,8 @@ impl Actor for NodeServer {
                     }
                     state.node_sessions.insert(actor.get_id(), ses);
                     state.node_id_counter += 1;
+                    #[cfg(ractor_verif)]
+                    crate::verif::ns_open(&state.this_node_name.name, actor.get_id(), &state.node_sessions[&actor.get_id()].peer_addr, is_server);
                 } else {
                     tracing::warn!(
                         "Failed to startup `NodeSession` for external transport, dropping connection"
@@ -718,6 +722,13 @@ impl Actor for NodeServer {
             }
             Self::Msg::ConnectionAuthenticated(actor_id) => {
                 if let Some(election) = state.commit_authenticated(actor_id) {
+                    #[cfg(ractor_verif)]
+                    crate::verif::ns_commit(
+                        &state.this_node_name.name,
+                        actor_id,
+                        election.candidate_survives,
+                        election.losers.iter().map(|l| l.get_id().pid() as i64).collect(),
+                    );
                     for loser in election.losers {
                         loser.stop(Some("duplicate_connection".to_string()));
                     }
@@ -731,6 +742,8 @@ impl Actor for NodeServer {
                 }
             }
             Self::Msg::ConnectionReady(actor_id) => {
+                #[cfg(ractor_verif)]
+                crate::verif::ns_ready(&state.this_node_name.name, actor_id, state.is_elected(actor_id));
                 if state.is_elected(actor_id) {
                     let entry = &state.node_sessions[&actor_id];
                     for sub in state.subscriptions.values() {
@@ -739,9 +752,24 @@ impl Actor for NodeServer {
                 }
             }
             Self::Msg::UpdateSession { actor_id, name } => {
+                #[cfg(ractor_verif)]
+                crate::verif::ns_update(
+                    &state.this_node_name.name,
+                    actor_id,
+                    &name.name,
+                    name.connection_id,
+                    state.node_sessions.contains_key(&actor_id),
+                );
                 state.register_session(actor_id, name);
             }
             Self::Msg::CheckSession { peer_name, reply } => {
+                #[cfg(ractor_verif)]
+                crate::verif::ns_check(
+                    &state.this_node_name.name,
+                    &peer_name.name,
+                    peer_name.connection_id,
+                    &state.check_session(&peer_name),
+                );
                 let _ = reply.send(state.check_session(&peer_name));
             }
             Self::Msg::GetSessions(reply) => {
@@ -793,6 +821,12 @@ impl Actor for NodeServer {
                             .await?;
                     state.listener = actor_ref;
                 } else {
+                    #[cfg(ractor_verif)]
+                    crate::verif::ns_gone(
+                        &state.this_node_name.name,
+                        actor.get_id(),
+                        state.node_sessions.contains_key(&actor.get_id()),
+                    );
                     match state.node_sessions.entry(actor.get_id()) {
                         Entry::Occupied(o) => {
                             tracing::warn!(
@@ -835,6 +869,12 @@ impl Actor for NodeServer {
                             .await?;
                     state.listener = actor_ref;
                 } else {
+                    #[cfg(ractor_verif)]
+                    crate::verif::ns_gone(
+                        &state.this_node_name.name,
+                        actor.get_id(),
+                        state.node_sessions.contains_key(&actor.get_id()),
+                    );
                     match state.node_sessions.entry(actor.get_id()) {
                         Entry::Occupied(o) => {
                             tracing::warn!(
@@ -886,6 +926,135 @@ pub fn verif_elect(this_node_name: &str, peer_name: &str, candidates: Vec<(u64, 
     .into_iter()
     .map(|id| id.pid())
     .collect()
+}
+
+/// cfg-only: a node server's session table with no session actors behind it, driven through the
+/// same private methods the node server's handlers call (register_session, check_session,
+/// check_candidate, commit_authenticated, is_elected)
+#[cfg(ractor_verif)]
+#[allow(missing_docs, missing_debug_implementations)]
+pub mod verif_state {
+    use super::*;
+
+    pub struct VDummy;
+    #[cfg_attr(feature = "async-trait", ractor::async_trait)]
+    impl Actor for VDummy {
+        type Msg = NodeSessionMessage;
+        type State = ();
+        type Arguments = ();
+        async fn pre_start(&self, _: ActorRef<Self::Msg>, _: ()) -> Result<(), ActorProcessingErr> {
+            Ok(())
+        }
+    }
+
+    fn reply_kind(r: &SessionCheckReply) -> &'static str {
+        match r {
+            SessionCheckReply::NoOtherConnection => "no_other",
+            SessionCheckReply::OtherConnectionContinues => "other",
+            SessionCheckReply::ThisConnectionContinues => "this",
+            SessionCheckReply::DuplicateConnection => "duplicate",
+        }
+    }
+
+    pub struct VerifNodeState {
+        st: NodeServerState,
+        cells: Vec<ractor::verif::Detached>,
+    }
+
+    impl VerifNodeState {
+        pub fn new(this_name: &str) -> Self {
+            let l = ractor::verif::detached::<VDummy>(None).expect("detached cell");
+            let st = NodeServerState {
+                listener: ActorRef::from(l.cell.clone()),
+                node_sessions: HashMap::new(),
+                node_id_counter: 0,
+                this_node_name: auth_protocol::NameMessage {
+                    flags: None,
+                    name: this_name.to_string(),
+                    connection_string: String::new(),
+                    connection_id: 0,
+                },
+                subscriptions: HashMap::new(),
+                connection_ids: HashMap::new(),
+                authenticated_sessions: HashSet::new(),
+            };
+            Self { st, cells: vec![l] }
+        }
+        /// what the ConnectionOpened arms do to the table; returns the new session's pid
+        pub fn open(&mut self, is_server: bool) -> u64 {
+            let d = ractor::verif::detached::<VDummy>(None).expect("detached cell");
+            let actor: ActorRef<NodeSessionMessage> = ActorRef::from(d.cell.clone());
+            let id = actor.get_id();
+            let node_id = self.st.node_id_counter;
+            self.st.node_sessions.insert(
+                id,
+                NodeServerSessionInformation::new(actor, is_server, node_id, "verif".to_string()),
+            );
+            self.st.node_id_counter += 1;
+            self.cells.push(d);
+            id.pid()
+        }
+        pub fn update(&mut self, pid: u64, peer: &str, nonce: u64) -> bool {
+            self.st.register_session(
+                ActorId::Local(pid),
+                auth_protocol::NameMessage {
+                    flags: None,
+                    name: peer.to_string(),
+                    connection_string: String::new(),
+                    connection_id: nonce,
+                },
+            )
+        }
+        pub fn check(&self, peer: &str, nonce: u64) -> &'static str {
+            reply_kind(&self.st.check_session(&auth_protocol::NameMessage {
+                flags: None,
+                name: peer.to_string(),
+                connection_string: String::new(),
+                connection_id: nonce,
+            }))
+        }
+        pub fn check_candidate(&self, pid: u64) -> &'static str {
+            reply_kind(&self.st.check_candidate(ActorId::Local(pid)))
+        }
+        /// (candidate survives, pids of the losers); None when the session is unknown or unnamed
+        pub fn commit(&mut self, pid: u64) -> Option<(bool, Vec<u64>)> {
+            self.st.commit_authenticated(ActorId::Local(pid)).map(|e| {
+                (e.candidate_survives, e.losers.iter().map(|l| l.get_id().pid()).collect())
+            })
+        }
+        pub fn is_elected(&self, pid: u64) -> bool {
+            self.st.is_elected(ActorId::Local(pid))
+        }
+        /// what the supervision arms do to the table when a session exits
+        pub fn gone(&mut self, pid: u64) -> bool {
+            let id = ActorId::Local(pid);
+            let known = self.st.node_sessions.remove(&id).is_some();
+            self.st.connection_ids.remove(&id);
+            self.st.authenticated_sessions.remove(&id);
+            known
+        }
+        /// pids GetSessions would report
+        pub fn visible(&self) -> Vec<u64> {
+            let mut v: Vec<u64> = self
+                .st
+                .node_sessions
+                .keys()
+                .filter(|id| self.st.authenticated_sessions.contains(id))
+                .map(|id| id.pid())
+                .collect();
+            v.sort_unstable();
+            v
+        }
+    }
+
+    impl Drop for VerifNodeState {
+        fn drop(&mut self) {
+            for d in self.cells.iter_mut() {
+                d.drop_ports();
+                d.drop_guard();
+            }
+        }
+    }
 }
 
 #[cfg(test)]
